@@ -12,6 +12,7 @@ import (
 
 	"github.com/osmosis-labs/osmosis/v31/x/gamm/pool-models/balancer"
 	"github.com/osmosis-labs/osmosis/v31/x/gamm/pool-models/stableswap"
+	gammkeeper "github.com/osmosis-labs/osmosis/v31/x/gamm/keeper"
 	gammtypes "github.com/osmosis-labs/osmosis/v31/x/gamm/types"
 	pmtypes "github.com/osmosis-labs/osmosis/v31/x/poolmanager/types"
 
@@ -809,6 +810,9 @@ func (w *world) probe(i int, st simcore.Step) bool {
 		run.Event("probe", "skip")
 		return true
 	}
+	if !w.quoteMultiAssetJoin(p, st) {
+		return false
+	}
 	a := w.actor(st.Arg(1))
 	addr := n.Accts[a]
 	d := pick(p.denoms, st.Arg(3))
@@ -936,6 +940,68 @@ func (w *world) probe(i int, st simcore.Step) bool {
 		run.Max("max/c04-cycle-gain-permille-of-allowance", permille(fInt(gain), fAdd(lim, fEps)))
 	}
 	run.Logf("%d probe %s pool=%d ok eps=%s", i, name, p.id, eps.Text('g', 6))
+	return true
+}
+
+// quoteMultiAssetJoin asks the pool (through the gamm CalcJoinPoolShares query, the only public way to reach
+// the pool model's general join: all assets at once, in a ratio different from the reserves) how many shares
+// a multi-asset join would mint, and checks that the weighted product of reserves per share does not fall:
+//
+//	d ln(V/S) = sum_i (w_i/W) * ln((B_i + a_i)/B_i) - ln((S + shares)/S) >= -(k+1) * 1e-7
+//
+// k = number of assets (one pow per single-asset join of the remainder, documented power precision 1e-8,
+// one order of magnitude granted for its amplification at extreme ratios; a join also pays the spread factor,
+// so the true change is positive).
+func (w *world) quoteMultiAssetJoin(p *poolInfo, st simcore.Step) bool {
+	run, n := w.run, w.n
+	ps := w.readPools(n.Ctx)
+	s0 := ps[p.id]
+	if s0 == nil || s0.stable || len(s0.denoms) < 2 {
+		return true
+	}
+	tokens := sdk.NewCoins()
+	for j, d := range s0.denoms {
+		bp := int64(1 + (st.Arg(5)+int64(j)*7919+st.Arg(3)*104729)%3000) // 0.01% .. 30% of each reserve, different per asset
+		amt := new(big.Int).Quo(new(big.Int).Mul(s0.B[d], big.NewInt(bp)), big.NewInt(10000))
+		if amt.Sign() <= 0 {
+			return true
+		}
+		tokens = tokens.Add(coin(d, amt))
+	}
+	q := gammkeeper.NewQuerier(*n.App.GAMMKeeper)
+	qctx, _ := n.Ctx.CacheContext()
+	var resp *gammtypes.QueryCalcJoinPoolSharesResponse
+	var err error
+	func() {
+		defer func() {
+			if x := recover(); x != nil {
+				err = fmt.Errorf("panic: %v", x)
+			}
+		}()
+		resp, err = q.CalcJoinPoolShares(qctx, &gammtypes.QueryCalcJoinPoolSharesRequest{PoolId: p.id, TokensIn: tokens})
+	}()
+	if err != nil || resp == nil || !resp.ShareOutAmount.IsPositive() {
+		run.Event("quote-multi-join", "void")
+		return true
+	}
+	run.Event("quote-multi-join", "ok")
+	run.Count("c04/multi-asset-join-quotes-checked")
+	dlnV := nf()
+	for _, d := range s0.denoms {
+		added := bi(resp.TokensOut.AmountOf(d))
+		if added.Sign() == 0 {
+			continue
+		}
+		om := fQuo(fInt(s0.wt[d]), fInt(s0.W))
+		dlnV = fAdd(dlnV, fMul(om, lnRatioF(fAdd(fInt(s0.B[d]), fInt(added)), fInt(s0.B[d]))))
+	}
+	dlnS := lnRatioF(fAdd(fInt(s0.S), fInt(bi(resp.ShareOutAmount))), fInt(s0.S))
+	delta := fSub(dlnV, dlnS)
+	tol := fMul(fI64(int64(len(s0.denoms)+1)), fQuo(fOne, fI64(10_000_000)))
+	if fAdd(delta, tol).Sign() < 0 {
+		run.Fail("C04", "weighted-product-per-share", "multi-asset-join", "pool %d (reserves %v, shares %s): a join of %s would mint %s shares for %s: the weighted product of reserves per share falls by %s (d ln V = %s, d ln S = %s)", p.id, s0.B, s0.S, tokens, resp.ShareOutAmount, resp.TokensOut, fNeg(delta).Text('g', 8), dlnV.Text('g', 10), dlnS.Text('g', 10))
+		return false
+	}
 	return true
 }
 
